@@ -3,6 +3,7 @@
 package main
 
 import (
+	"errors"
 	"context"
 	"crypto/ecdsa"
 	"crypto/elliptic"
@@ -150,6 +151,21 @@ type countedConn struct {
 func (c *countedConn) Close() error {
 	c.once.Do(func() { c.l.mu.Lock(); c.l.closed++; c.l.mu.Unlock() })
 	return c.Conn.Close()
+}
+
+// the accepted connection is a *net.TCPConn in production: keep its optional interfaces visible through the wrapper
+func (c *countedConn) CloseWrite() error {
+	if cw, ok := c.Conn.(interface{ CloseWrite() error }); ok {
+		return cw.CloseWrite()
+	}
+	return errors.New("verif: CloseWrite not supported by the underlying connection")
+}
+
+func (c *countedConn) CloseRead() error {
+	if cr, ok := c.Conn.(interface{ CloseRead() error }); ok {
+		return cr.CloseRead()
+	}
+	return errors.New("verif: CloseRead not supported by the underlying connection")
 }
 
 func (l *countingListener) Accept() (net.Conn, error) {
